@@ -16,6 +16,13 @@ Definition flat19 (n m : nat) (A : QcM) : list Qc :=
   flat_map (fun i => map (mget A i) (seq 0 m)) (seq 0 n).
 Definition b2q (b : bool) : Qc := if b then Q2Qc 1 else Q2Qc 0.
 Definition qpinv : nat -> QcM -> option QcM := mpinv.
+(* Qc values are canonical by construction: print numerator/denominator as they
+   are (Show.showQc re-reduces, which costs seconds on 6000-bit squared norms) *)
+Definition showQc' (o : option (list Qc)) : list Z :=
+  match o with
+  | None => [0%Z]
+  | Some l => 1%Z :: flat_map (fun x => [Qnum (this x); Zpos (Qden (this x))]) l
+  end.
 
 (* x ++ fx ++ dx ++ [iters; |fx|^2; |dx|^2; cond1; cond2; cond3] *)
 Definition enc_gn (D K maxiter : nat) (tol2 : Qc) (st : @gn_state Qc) : list Qc :=
@@ -26,7 +33,7 @@ Definition enc_gn (D K maxiter : nat) (tol2 : Qc) (st : @gn_state Qc) : list Qc 
 (* ONE pass through body_fun from the implementation's state (x, fx) *)
 Definition c19_step (D K : nat) (ps : list (@poly Qc)) (m : list Qc) (C : QcM)
            (x fx : list Qc) : list Z :=
-  showQc (match gn_body qpinv D K (poly_f D K ps) (poly_jac D K ps) (to_col m) C
+  showQc' (match gn_body qpinv D K (poly_f D K ps) (poly_jac D K ps) (to_col m) C
                         (mkGN (to_col x) (to_col fx) (ones_col D) 0) with
           | None => None
           | Some st => Some (enc_gn D K 0 (Q2Qc 0) st)
@@ -35,13 +42,13 @@ Definition c19_step (D K : nat) (ps : list (@poly Qc)) (m : list Qc) (C : QcM)
 (* cond_fun on the implementation's state: the three flags *)
 Definition c19_cond (D K maxiter : nat) (tol2 : Qc) (fx dx : list Qc) (i : nat) : list Z :=
   let st := mkGN (to_col []) (to_col fx) (to_col dx) i in
-  showQc (Some [b2q (cond1 qc_gtb K tol2 st); b2q (cond2 maxiter st);
+  showQc' (Some [b2q (cond1 qc_gtb K tol2 st); b2q (cond2 maxiter st);
                 b2q (cond3 qc_gtb D tol2 st); norm2 K (s_fx st); norm2 D (s_dx st)]).
 
 (* the while loop with [fuel] from a given state.  tag 1 Done, 2 OutOfFuel;
    None = SolveFailed *)
 Definition enc_result (D K maxiter : nat) (tol2 : Qc) (r : @gn_result Qc) : list Z :=
-  showQc (match r with
+  showQc' (match r with
           | Done st => Some (Q2Qc 1 :: enc_gn D K maxiter tol2 st)
           | OutOfFuel st => Some (Q2Qc 2 :: enc_gn D K maxiter tol2 st)
           | SolveFailed _ => None
@@ -63,7 +70,7 @@ Definition c19_run (D K : nat) (ps : list (@poly Qc)) (m : list Qc) (C : QcM)
 (* Gaussian conditional of N(m, C) given A x + c = 0 through Model/Gauss.v:
    posterior mean ++ posterior covariance *)
 Definition c19_condmean (D K : nat) (A : QcM) (c m : list Qc) (C : QcM) : list Z :=
-  showQc (match bayes_rule qpinv D K 1
+  showQc' (match bayes_rule qpinv D K 1
                   (from_linop_and_noise D K A (mkN (to_col c) (mzero K K)))
                   (mzero K 1) (mkN (to_col m) C) with
           | None => None
@@ -73,7 +80,7 @@ Definition c19_condmean (D K : nat) (A : QcM) (c m : list Qc) (C : QcM) : list Z
 (* DenseResidual.linearize at xi followed by the update with data 0 *)
 Definition c19_update (D K : nat) (ps : list (@poly Qc)) (m : list Qc) (C : QcM)
            (xi : list Qc) : list Z :=
-  showQc (match bayes_rule qpinv D K 1
+  showQc' (match bayes_rule qpinv D K 1
                   (lin_at D K (poly_f D K ps) (poly_jac D K ps) (to_col xi))
                   (mzero K 1) (mkN (to_col m) C) with
           | None => None
@@ -101,8 +108,22 @@ Local Open Scope nat_scope.
 Definition bq (n : Z) (d : N) : bigQ := BigQ.red (BigQ.Qq (BigZ.of_Z n) (BigN.of_N d)).
 Definition bq_gtb (a b : bigQ) : bool :=
   match BigQ.compare a b with Gt => true | _ => false end.
+(* Printer: Coq prints a 3000-bit integer in seconds, so non-integers are
+   ROUNDED for printing to a dyadic rational with >= 119 significant bits
+   (floor of n 2^s / d over 2^s); zero and integers are printed exactly.  The
+   harness compares at 1e-7 .. 1e-8, 28 orders of magnitude above this. *)
+Definition show_prec : Z := 120%Z.
+Definition showB1 (x : bigQ) : list Z :=
+  match BigQ.red x with
+  | BigQ.Qz n => [BigZ.to_Z n; 1%Z]
+  | BigQ.Qq n d =>
+    let ln := BigZ.to_Z (BigZ.log2 (BigZ.abs n)) in
+    let ld := BigZ.to_Z (BigZ.log2 (BigZ.Pos d)) in
+    let s := Z.max 0 (show_prec + ld - ln) in
+    [BigZ.to_Z (BigZ.div (BigZ.shiftl n (BigZ.of_Z s)) (BigZ.Pos d)); Z.shiftl 1 s]
+  end.
 Definition showB (o : option (list bigQ)) : list Z :=
-  match o with None => [0%Z] | Some l => 1%Z :: flat_map (fun x => zq (BigQ.to_Q (BigQ.red x))) l end.
+  match o with None => [0%Z] | Some l => 1%Z :: flat_map showB1 l end.
 
 Definition BM := @mat bigQ.
 Definition to_colB (l : list bigQ) : BM := map (fun x => [x]) l.
